@@ -105,7 +105,7 @@ Qed.
 
 Lemma pub_marker : forall used F M g p c, G used F M g ->
   name_ok p = true -> ~ In p used -> refs c = [] ->
-  exists g', checks g (publish_meta p c) = Some g' /\ G (p :: used) F (p :: M) g'.
+  exists g', checks g (publish_meta p c) = Some g' /\ G (p :: used) F (p :: M) g' /\ st g' PTR = st g PTR.
 Proof.
   intros used F M g p c H Hn Hu Hr. destruct (name_ok_spec _ Hn) as [Hf Hp].
   destruct p as [d n|]; [|discriminate].
@@ -115,7 +115,7 @@ Proof.
     as [g' [Hc [T1 [S1 [S2 R1]]]]].
   assert (R2 : forall x, refd g' x = refd g x).
   { intro x. rewrite R1, Hr. simpl. apply orb_false_r. }
-  exists g'. split; auto. constructor; auto.
+  exists g'. split; auto. split; [|apply S2; auto]. constructor; auto.
   - intros q Hq Hnin. rewrite S2; [apply (g_fresh _ _ _ _ H); auto; intro; apply Hnin; now right|].
     intro E. apply Hnin. now left.
   - intros f Hin. destruct (g_files _ _ _ _ H f Hin) as [A B]. split; auto. rewrite S2; auto.
@@ -236,7 +236,7 @@ Proof.
   - destruct (Hn it (or_introl eq_refl)) as [N1 [N2 N3]].
     simpl in Hd. inversion Hd as [|? ? D1 D2]; subst. inversion D2 as [|? ? D3 D4]; subst.
     destruct Hp as [P1 P2].
-    destruct (pub_marker used F M g (mk_path it) (pf_content (it_marker it)) H N1) as [g1 [C1 G1]]; auto.
+    destruct (pub_marker used F M g (mk_path it) (pf_content (it_marker it)) H N1) as [g1 [C1 [G1 _]]]; auto.
     { apply Hu. simpl. auto. }
     destruct (pub_file' (mk_path it :: used) F (mk_path it :: M) g1 (it_file it) G1 N2) as [g2 [C2 G2]]; auto.
     { intros [E|E]; [apply D1; left; auto|]. eapply Hu; [|exact E]. simpl. auto. }
@@ -278,15 +278,18 @@ Qed.
 
 (* ---------------------------------------------------------------- one commit *)
 Lemma del_markers : forall ms used F M g, G used F M g -> (forall m, In m ms -> In m M) -> NoDup ms ->
-  exists g' M', checks g (map Unlink ms) = Some g' /\ G used F M' g' /\ st g' PTR = st g PTR.
+  exists g' M', checks g (map Unlink ms) = Some g' /\ G used F M' g' /\ st g' PTR = st g PTR
+    /\ (forall x, In x M -> ~ In x ms -> In x M').
 Proof.
   induction ms as [|m ms IH]; intros used F M g H Hin Hnd.
   - exists g, M. simpl. auto.
   - cbn [map checks]. inversion Hnd as [|? ? N1 N2]; subst.
     destruct (del_marker used F M g m H (Hin m (or_introl eq_refl))) as [g1 [C1 G1]].
-    destruct (IH used F (remove path_eq_dec m M) g1 G1) as [g2 [M2 [C2 [G2 S2]]]]; auto.
+    destruct (IH used F (remove path_eq_dec m M) g1 G1) as [g2 [M2 [C2 [G2 [S2 K2]]]]]; auto.
     { intros m' Hm'. apply in_in_remove; [intro; subst; auto|apply Hin; now right]. }
-    exists g2, M2. rewrite C1. split; [exact C2|]. split; [exact G2|]. rewrite S2.
+    exists g2, M2. rewrite C1. split; [exact C2|]. split; [exact G2|]. split.
+    2:{ intros x Hx Hnx. apply K2; [apply in_in_remove; auto; intro; subst; apply Hnx; now left|intro; apply Hnx; now right]. }
+    rewrite S2.
     destruct (g_marks _ _ _ _ H m (Hin m (or_introl eq_refl))) as [_ [B _]]. destruct (name_ok_spec _ B) as [Hf Hp].
     destruct m as [d n|]; [|discriminate]. cbn [check] in C1.
     destruct (negb (path_eqb (P d n) PTR) && negb (refd g (P d n)) && match st g (P d n) with Linked _ _ => true | _ => false end);
@@ -357,7 +360,7 @@ Proof.
     destruct (path_eqb_spec v (pf_path (c_meta c))); [|discriminate]. destruct Hr as [<-|[]]. subst v. now left. }
   destruct (pub_ptr _ _ _ g3 (c_ptr c) G3 Hptr) as [g4 [C4 [G4 S4]]].
   (* cleanup *)
-  destruct (del_markers (map mk_path its) _ _ _ g4 G4) as [g5 [M5 [C5 [G5 S5]]]].
+  destruct (del_markers (map mk_path its) _ _ _ g4 G4) as [g5 [M5 [C5 [G5 [S5 _]]]]].
   { intros m Hm. apply in_or_app. left. now apply in_rev in Hm. }
   { clear - Hnd. induction (map mk_path its) as [|a l IH]; [constructor|]. simpl in Hnd. inversion Hnd; subst.
     constructor; auto. intro E. apply H1. apply in_or_app. now left. }
@@ -394,10 +397,86 @@ Proof.
 Qed.
 
 (* ---------------------------------------------------------------- a whole history *)
-Fixpoint used_after (used : list path) (ops : list commit) : list path :=
-  match ops with [] => used | c :: ops' => used_after (names_of_commit c ++ used) ops' end.
-Fixpoint avail_after (avail : list path) (ops : list commit) : list path :=
-  match ops with [] => avail | c :: ops' => avail_after (map pf_path (files_of_commit c) ++ avail) ops' end.
+(* a rolled-back transaction: every file it wrote is unlinked again; the pointer is untouched *)
+Lemma pub_pairs : forall l used F M g, G used F M g ->
+  (forall it, In it l -> name_ok (mk_path it) = true /\ name_ok (fl_path it) = true
+                         /\ refs (pf_content (it_marker it)) = [] /\ refs (pf_content (it_file it)) = []) ->
+  NoDup (inter l) -> (forall x, In x (inter l) -> ~ In x used) ->
+  exists g', checks g (flat_map (pub_item true) l) = Some g'
+    /\ G (rev (inter l) ++ used) F (rev (inter l) ++ M) g' /\ st g' PTR = st g PTR.
+Proof.
+  induction l as [|it l IH]; intros used F M g H Hn Hd Hu.
+  - simpl. eauto.
+  - destruct (Hn it (or_introl eq_refl)) as [N1 [N2 [N3 N4]]].
+    simpl in Hd. inversion Hd as [|? ? D1 D2]; subst. inversion D2 as [|? ? D3 D4]; subst.
+    destruct (pub_marker used F M g (mk_path it) (pf_content (it_marker it)) H N1) as [g1 [C1 [G1 S1]]]; auto.
+    { apply Hu. simpl. auto. }
+    destruct (pub_marker (mk_path it :: used) F (mk_path it :: M) g1 (fl_path it) (pf_content (it_file it)) G1 N2) as [g2 [C2 [G2 S2]]]; auto.
+    { intros [E|E]; [apply D1; left; auto|]. eapply Hu; [|exact E]. simpl. auto. }
+    assert (Hn' : forall it0, In it0 l -> name_ok (mk_path it0) = true /\ name_ok (fl_path it0) = true
+                   /\ refs (pf_content (it_marker it0)) = [] /\ refs (pf_content (it_file it0)) = [])
+      by (intros; apply Hn; right; auto).
+    assert (Hu' : forall x, In x (inter l) -> ~ In x (fl_path it :: mk_path it :: used)).
+    { intros x Hx. intros [E|[E|E]].
+      - subst x. apply D3. exact Hx.
+      - subst x. apply D1. right. exact Hx.
+      - eapply Hu; [|exact E]. simpl. auto. }
+    destruct (IH (fl_path it :: mk_path it :: used) F (fl_path it :: mk_path it :: M) g2 G2 Hn' D4 Hu') as [g3 [C3 [G3 S3]]].
+    exists g3. split; [|split].
+    + cbn [flat_map]. unfold pub_item at 1. rewrite !checks_app.
+      fold (mk_path it). rewrite C1.
+      replace ((if true then publish_data else publish_meta) (pf_path (it_file it)) (pf_content (it_file it)))
+        with (publish_meta (fl_path it) (pf_content (it_file it))) by reflexivity.
+      rewrite C2. exact C3.
+    + simpl. rewrite <- !app_assoc. simpl. exact G3.
+    + congruence.
+Qed.
+
+Lemma NoDup_app_swap : forall (a b : list path), NoDup (a ++ b) -> NoDup (b ++ a).
+Proof.
+  induction a as [|x a IH]; intros b H; simpl in *; [now rewrite app_nil_r|].
+  inversion H; subst. apply NoDup_Add with (a := x) (l := b ++ a).
+  - apply Add_app.
+  - split; [apply IH; auto|]. intro E. apply H2. apply in_app_or in E. apply in_or_app. tauto.
+Qed.
+
+Theorem abort_ok : forall its used usedG F g,
+  wf_abort used its = true -> G usedG F [] g -> incl usedG used ->
+  exists g' usedG', checks g (abort_trace its) = Some g' /\ G usedG' F [] g'
+    /\ incl usedG' (names_of_abort its ++ used) /\ st g' PTR = st g PTR.
+Proof.
+  intros its used usedG F g Hwf HG Hiu. unfold wf_abort in Hwf.
+  apply andb_prop in Hwf as [Hwf W4]. apply andb_prop in Hwf as [Hwf W3]. apply andb_prop in Hwf as [W1 W2].
+  assert (Hnames : names_of_abort its = map mk_path its ++ map fl_path its) by reflexivity.
+  rewrite Hnames in *. apply nodup_b_spec in W2.
+  destruct (pub_pairs its usedG F [] g HG) as [g1 [C1 [G1 S1]]].
+  { intros it Hit. pose proof (forallb_In _ _ _ W4 Hit) as E. simpl in E. apply andb_prop in E as [E1 E2]. unfold no_refs in E1, E2.
+    repeat split.
+    - apply (forallb_In _ _ _ W1). apply in_or_app. left. now apply in_map.
+    - apply (forallb_In _ _ _ W1). apply in_or_app. right. now apply in_map.
+    - destruct (refs (pf_content (it_marker it))); [reflexivity|discriminate].
+    - destruct (refs (pf_content (it_file it))); [reflexivity|discriminate]. }
+  { now apply NoDup_inter. }
+  { intros x Hx Hu. apply Hiu in Hu. apply inter_perm_in in Hx.
+    assert (Hx' : In x (map mk_path its ++ map fl_path its)) by (apply in_or_app; tauto).
+    apply (forallb_In _ _ _ W3) in Hx'. apply mem_In in Hu. rewrite Hu in Hx'. discriminate. }
+  destruct (del_markers (map fl_path its ++ map mk_path its) _ _ _ g1 G1) as [g2 [M2 [C2 [G2 [S2 _]]]]].
+  { intros m Hm. apply in_or_app. left. rewrite <- in_rev. apply inter_perm_in. apply in_app_or in Hm. tauto. }
+  { now apply NoDup_app_swap. }
+  exists g2, (rev (inter its) ++ usedG). split; [|split; [|split]].
+  - unfold abort_trace. rewrite checks_app, C1. rewrite map_app, !map_map in C2. exact C2.
+  - eapply G_drop_marks; eauto.
+  - intros x Hx. apply in_app_or in Hx as [Hx|Hx].
+    + apply in_rev in Hx. apply inter_perm_in in Hx. apply in_or_app. left. apply in_or_app. tauto.
+    + apply in_or_app. right. auto.
+  - congruence.
+Qed.
+
+(* ---------------------------------------------------------------- a whole history *)
+Fixpoint used_after (used : list path) (ops : list op) : list path :=
+  match ops with [] => used | o :: ops' => used_after (names_of_op o ++ used) ops' end.
+Fixpoint avail_after (avail : list path) (ops : list op) : list path :=
+  match ops with [] => avail | o :: ops' => avail_after (map pf_path (files_of_op o) ++ avail) ops' end.
 
 Lemma wf_from_app : forall l1 l2 used avail, wf_from used avail (l1 ++ l2) =
   wf_from used avail l1 && wf_from (used_after used l1) (avail_after avail l1) l2.
@@ -411,31 +490,28 @@ Theorem history_ok : forall ops used avail usedG F g,
   exists g' usedG' F',
     checks g (trace_of ops) = Some g' /\ G usedG' F' [] g'
     /\ incl usedG' (used_after used ops) /\ incl (avail_after avail ops) (map pf_path F')
-    /\ incl (files_of ops ++ F) F' /\ incl F' (files_of ops ++ F)
-    /\ (ops <> [] -> exists c, last ops c = c /\ st g' PTR = Linked (c_ptr (last ops c)) true)
-    /\ (ops = [] -> st g' PTR = st g PTR).
+    /\ incl (files_of ops ++ F) F' /\ incl F' (files_of ops ++ F).
 Proof.
-  induction ops as [|c ops IH]; intros used avail usedG F g Hwf HG Hiu Hia.
-  - exists g, usedG, F. simpl. repeat (split; auto); try apply incl_refl. congruence.
-  - simpl in Hwf. apply andb_prop in Hwf as [W1 W2].
-    destruct (commit_ok c used avail usedG F g W1 HG Hiu Hia)
-      as [g1 [g2 [u2 [F2 [M1 [C1 [C2 [G1 [G2 [S1 [S2 [I1 [I2 [I3 [I4 I5]]]]]]]]]]]]]]].
-    destruct (IH _ _ u2 F2 g2 W2 G2 I1 I2) as [g3 [u3 [F3 [C3 [G3 [J1 [J2 [J3 [J4 [J5 J6]]]]]]]]]].
-    exists g3, u3, F3. split.
-    { cbn [trace_of flat_map]. unfold trace_of_commit. rewrite !checks_app, C1, C2. exact C3. }
-    split; [exact G3|]. split; [exact J1|]. split; [exact J2|]. split.
-    { cbn [files_of flat_map]. intros x Hx. apply J3. apply in_app_or in Hx as [Hx|Hx].
-      - apply in_app_or in Hx as [Hx|Hx]; apply in_or_app; [right; apply I4; auto|left; auto].
-      - apply in_or_app. right. apply I3. auto. }
-    split.
-    { cbn [files_of flat_map]. intros x Hx. apply J4 in Hx. apply in_app_or in Hx as [Hx|Hx].
-      - apply in_or_app. left. apply in_or_app. now right.
-      - apply I5 in Hx. apply in_app_or in Hx as [Hx|Hx]; apply in_or_app; [left; apply in_or_app; now left|now right]. }
-    split; [|discriminate].
-    intros _. destruct ops as [|c' ops'].
-    + exists c. split; [reflexivity|]. simpl. rewrite (J6 eq_refl). exact S2.
-    + destruct (J5 ltac:(discriminate)) as [c0 [E0 E1]]. exists c0. split; [exact E0|].
-      change (last (c :: c' :: ops') c0) with (last (c' :: ops') c0). exact E1.
+  induction ops as [|o ops IH]; intros used avail usedG F g Hwf HG Hiu Hia.
+  - exists g, usedG, F. simpl. repeat (split; auto); try apply incl_refl.
+  - simpl in Hwf. apply andb_prop in Hwf as [W1 W2]. destruct o as [c|its].
+    + destruct (commit_ok c used avail usedG F g W1 HG Hiu Hia)
+        as [g1 [g2 [u2 [F2 [M1 [C1 [C2 [G1 [G2 [S1 [S2 [I1 [I2 [I3 [I4 I5]]]]]]]]]]]]]]].
+      destruct (IH _ _ u2 F2 g2 W2 G2 I1 I2) as [g3 [u3 [F3 [C3 [G3 [J1 [J2 [J3 J4]]]]]]]].
+      exists g3, u3, F3. split.
+      { cbn [trace_of flat_map trace_of_op]. unfold trace_of_commit. rewrite !checks_app, C1, C2. exact C3. }
+      split; [exact G3|]. split; [exact J1|]. split; [exact J2|]. split.
+      { cbn [files_of flat_map files_of_op]. intros x Hx. apply J3. apply in_app_or in Hx as [Hx|Hx].
+        - apply in_app_or in Hx as [Hx|Hx]; apply in_or_app; [right; apply I4; auto|left; auto].
+        - apply in_or_app. right. apply I3. auto. }
+      cbn [files_of flat_map files_of_op]. intros x Hx. apply J4 in Hx. apply in_app_or in Hx as [Hx|Hx].
+      * apply in_or_app. left. apply in_or_app. now right.
+      * apply I5 in Hx. apply in_app_or in Hx as [Hx|Hx]; apply in_or_app; [left; apply in_or_app; now left|now right].
+    + destruct (abort_ok its used usedG F g W1 HG Hiu) as [g2 [u2 [C2 [G2 [I1 S2]]]]].
+      simpl in W2. destruct (IH _ _ u2 F g2 W2 G2 I1 Hia) as [g3 [u3 [F3 [C3 [G3 [J1 [J2 [J3 J4]]]]]]]].
+      exists g3, u3, F3. split.
+      { cbn [trace_of flat_map trace_of_op]. rewrite checks_app, C2. exact C3. }
+      split; [exact G3|]. split; [exact J1|]. split; [exact J2|]. split; [exact J3|exact J4].
 Qed.
 
 (* ---------------------------------------------------------------- the ghost only grows *)
@@ -511,7 +587,7 @@ Lemma wf_checks : forall ops, wf ops = true ->
     /\ incl (files_of ops) F' /\ incl F' (files_of ops).
 Proof.
   intros ops H. destruct (history_ok ops [] [] [] [] g0 H G_init (incl_refl _) (incl_refl _))
-    as [g' [u' [F' [C [HG [_ [_ [I1 [I2 _]]]]]]]]].
+    as [g' [u' [F' [C [HG [_ [_ [I1 I2]]]]]]]].
   rewrite app_nil_r in I1, I2. eauto 8.
 Qed.
 
@@ -578,19 +654,19 @@ Qed.
 Lemma trace_of_app : forall l1 l2, trace_of (l1 ++ l2) = trace_of l1 ++ trace_of l2.
 Proof. intros. unfold trace_of. apply flat_map_app. Qed.
 
-Theorem acked_durable : forall ops c, wf (ops ++ [c]) = true ->
+Theorem acked_durable : forall ops c, wf (ops ++ [OCommit c]) = true ->
   forall n es, (length (trace_of ops ++ commit_body c) <= n)%nat ->
-  calls_of es = firstn n (trace_of (ops ++ [c])) ->
+  calls_of es = firstn n (trace_of (ops ++ [OCommit c])) ->
   exists s', run fs0 es = Some s' /\ pointer (power_loss s') = Some (pf_path (c_meta c)) /\ pointer (vol s') = Some (pf_path (c_meta c)).
 Proof.
   intros ops c Hwf n es Hn Hes.
   unfold wf in Hwf. rewrite wf_from_app in Hwf. apply andb_prop in Hwf as [W1 W2].
   destruct (history_ok ops [] [] [] [] g0 W1 G_init (incl_refl _) (incl_refl _))
     as [g1 [u1 [F1 [C1 [G1 [J1 [J2 _]]]]]]].
-  simpl in W2. rewrite andb_true_r in W2.
+  cbn [wf_from wf_op] in W2. rewrite andb_true_r in W2.
   destruct (commit_ok c _ _ u1 F1 g1 W2 G1 J1 J2) as [g2 [g3 [u3 [F3 [M3 [C2 [C3 [G2 [G3 [S2 _]]]]]]]]]].
-  assert (Htr : trace_of (ops ++ [c]) = (trace_of ops ++ commit_body c) ++ commit_cleanup c).
-  { rewrite trace_of_app. cbn [trace_of flat_map]. rewrite app_nil_r. unfold trace_of_commit. now rewrite app_assoc. }
+  assert (Htr : trace_of (ops ++ [OCommit c]) = (trace_of ops ++ commit_body c) ++ commit_cleanup c).
+  { rewrite trace_of_app. cbn [trace_of flat_map trace_of_op]. rewrite app_nil_r. unfold trace_of_commit. now rewrite app_assoc. }
   rewrite Htr in Hes. rewrite firstn_app in Hes. rewrite firstn_all2 in Hes by exact Hn.
   unfold commit_cleanup in Hes, C3. rewrite firstn_map in Hes.
   set (k := (n - length (trace_of ops ++ commit_body c))%nat) in *.
